@@ -536,7 +536,59 @@ def c17(chk):
     chk.assumptions += ["that a Rust `Copy` of a scanner is independent of the original is checked on the real code only (the model is a value)"]
 
 
-REGISTRY = {"C12": c12, "C13": c13, "C14": c14, "C15": c15, "C16": c16, "C17": c17, "C07": c07, "C08": c08, "C09": c09, "C10": c10, "C11": c11, "C04": c04, "C05": c05, "C01": c01, "C02": c02, "C03": c03, "C06": c06}
+def c19(chk):
+    chk.extract()
+    chk.proofs(["Midi.Props.C19"])
+    exe = chk.cargo_build("with_serde")
+    if exe is None:
+        return
+    run_corpus(chk, exe)
+    lines_run(chk, exe, ["serde-lines"], "serde")
+    sample_from(chk, "serde", 4)
+    chk.cov["configurations"] = ["std + serde + serde_repr"]
+    chk.cov["rule"] = ("through serde_json::Value as the generic deserializer: every integer -3..65540 plus i64/u64 extremes for each of the six integer types and for "
+                       "ShortMessageType; for RawShortMessage, ControlChange14BitMessage, ParameterNumberMessage, TimeCodeQuarterFrame and all 23 (+1 unknown) "
+                       "StructuredShortMessage variants every combination of boundary / abstracted field values (incl. negative, > u16, unknown variants); after a "
+                       "successful deserialization the accessors that would panic on an unconstructible value are called; natural representation of seeded valid "
+                       "values round-trips through the real Serialize; malformed JSON shapes must fail")
+    chk.assumptions += ["the theorems are about a model of serde's derive / try_from container attribute / serde_repr (Midi/Model/Serde.lean), validated by this run",
+                        "structural mismatches (wrong JSON type, missing field) are rejected by serde itself and are exercised on the real code only"]
+
+
+def c18(chk):
+    chk.extract()
+    chk.proofs(["Midi.Props.C18"])
+    # allocation half: counting allocator, low optimisation so that allocations are not elided
+    exe0 = chk.cargo_build("std", profile="noopt")
+    if exe0 is not None:
+        lines_run(chk, exe0, ["alloc-probe"], "alloc-probe")
+        sample_from(chk, "alloc-probe", 5)
+    exe1 = chk.cargo_build("", profile="noopt")
+    if exe1 is not None:
+        lines_run(chk, exe1, ["alloc-probe"], "alloc-probe-nostd")
+    # panic half on the real code: panic sites are compared (catch_unwind) on documented-panic sweeps and on histories
+    exe = chk.cargo_build("std")
+    if exe is not None:
+        run_corpus(chk, exe)
+        blocks_then_lines(chk, exe, ["ctor-blocks"], "ctor-blocks")
+        lines_run(chk, exe, ["tu-lines"], "tu-lines")
+        lines_run(chk, exe, ["new-lines", "std"], "new-std")
+        lines_run(chk, exe, ["enc14-lines"], "enc14")
+        blocks_then_lines(chk, exe, ["msg-blocks", "all"], "blocks")
+        for k in ("cc", "pn", "pp"):
+            lines_run(chk, exe, [k + "-random"], k + "-random", stateful=True)
+    chk.cov["partial"] = True
+    chk.cov["rule"] = ("PANIC half (theorems + comparison of panic sites under catch_unwind): all 4 x 2^21 byte triples with every trait method, every named / generic "
+                       "constructor argument tuple (category panics expected exactly for the wrong category), test_util shorthands over all u8/u16 arguments, T::new over "
+                       "the whole representation range, 14-bit CC constructor over all 128 controller numbers, seeded random histories of all three scanners. "
+                       "ALLOCATION half (monitored, NOT proved): counting global allocator, opt-level 0, tight regions around from_bytes + every trait method for every "
+                       "third valid byte triple (thorough: all), integer conversions/new/parse/Display-to-stack-buffer/Ord for all 16384 values, constructors + both "
+                       "encoders, scanner new/feed/poll/reset/copy/eq over random histories, in the std and the no-default-features build; a self-test shows the counter sees a Vec")
+    chk.assumptions += ["heap allocation is not expressible in the functional model: the allocation half is a runtime monitor over the sampled calls listed in `rule`, not a proof",
+                        "panic sites are identified by panic message text"]
+
+
+REGISTRY = {"C18": c18, "C19": c19, "C12": c12, "C13": c13, "C14": c14, "C15": c15, "C16": c16, "C17": c17, "C07": c07, "C08": c08, "C09": c09, "C10": c10, "C11": c11, "C04": c04, "C05": c05, "C01": c01, "C02": c02, "C03": c03, "C06": c06}
 
 
 def replay(pid, path):
